@@ -30,6 +30,8 @@ Proof.
   intro H. apply (f_equal (@length N)) in H. rewrite app_length in H. simpl in H. lia.
 Qed.
 
+Global Opaque new_prefix.
+
 (** ** planner: segments *)
 
 (** statements one change contributes, and whether it sets skipFKs *)
@@ -435,6 +437,431 @@ Proof.
     intros [|i] r0 r' H0 H1; simpl in *.
     + inversion H0; inversion H1; subst. eauto.
     + eauto.
+Qed.
+
+(** *** catalogue lemmas *)
+Lemma find_et_app n l t :
+  find_et n (l ++ [t]) =
+  match find_et n l with Some x => Some x | None => if str_eqb (et_name t) n then Some t else None end.
+Proof.
+  unfold find_et. induction l as [|u l IH]; simpl; [reflexivity|].
+  destruct (str_eqb (et_name u) n); auto.
+Qed.
+
+Lemma find_et_name n l t : find_et n l = Some t -> et_name t = n.
+Proof.
+  unfold find_et. intros H. apply find_some in H. destruct H as [_ H]. now seq.
+Qed.
+
+Lemma find_et_replace_other n t l : et_name t <> n -> find_et n (replace_et t l) = find_et n l.
+Proof.
+  intros Hn. unfold find_et. induction l as [|u l IH]; simpl; [reflexivity|].
+  destruct (str_eqb (et_name u) (et_name t)) eqn:E; simpl.
+  - seq. destruct (str_eqb (et_name t) n) eqn:E1; [seq; contradiction|].
+    destruct (str_eqb (et_name u) n) eqn:E2; [seq; congruence|reflexivity].
+  - destruct (str_eqb (et_name u) n); auto.
+Qed.
+
+Lemma find_et_replace_same t l x :
+  find_et (et_name t) l = Some x -> find_et (et_name t) (replace_et t l) = Some t.
+Proof.
+  unfold find_et. induction l as [|u l IH]; simpl; [discriminate|].
+  destruct (str_eqb (et_name u) (et_name t)) eqn:E; simpl.
+  - intros _. now rewrite str_eqb_refl.
+  - rewrite E. auto.
+Qed.
+
+Lemma find_et_remove_other n m l : m <> n -> find_et n (remove_et m l) = find_et n l.
+Proof.
+  intros Hn. unfold find_et. induction l as [|u l IH]; simpl; [reflexivity|].
+  destruct (str_eqb (et_name u) m) eqn:E; simpl.
+  - seq. destruct (str_eqb (et_name u) n) eqn:E2; [seq; congruence|reflexivity].
+  - destruct (str_eqb (et_name u) n); auto.
+Qed.
+
+Definition rename_et (a b : str) (t : etable) : etable :=
+  if str_eqb (et_name t) a then mkEtable b (et_cols t) (et_fks t) (et_rows t) else t.
+
+Lemma rename_et_hit a b u : str_eqb (et_name u) a = true ->
+  rename_et a b u = mkEtable b (et_cols u) (et_fks u) (et_rows u).
+Proof. unfold rename_et. now intros ->. Qed.
+Lemma rename_et_miss a b u : str_eqb (et_name u) a = false -> rename_et a b u = u.
+Proof. unfold rename_et. now intros ->. Qed.
+
+Lemma find_et_rename_other n a b l :
+  a <> n -> b <> n -> find_et n (map (rename_et a b) l) = find_et n l.
+Proof.
+  intros Ha Hb. unfold find_et. induction l as [|u l IH]; simpl; [reflexivity|].
+  destruct (str_eqb (et_name u) a) eqn:E.
+  - rewrite (rename_et_hit _ _ _ E). simpl. seq. destruct (str_eqb b n) eqn:E1; [seq; contradiction|].
+    destruct (str_eqb (et_name u) n) eqn:E2; [seq; congruence|]. exact IH.
+  - rewrite (rename_et_miss _ _ _ E). destruct (str_eqb (et_name u) n); auto.
+Qed.
+
+Lemma find_et_rename a b l t :
+  find_et a l = Some t -> find_et b l = None ->
+  find_et b (map (rename_et a b) l) = Some (mkEtable b (et_cols t) (et_fks t) (et_rows t)).
+Proof.
+  unfold find_et. induction l as [|u l IH]; simpl; [discriminate|].
+  destruct (str_eqb (et_name u) a) eqn:E.
+  - rewrite (rename_et_hit _ _ _ E). simpl. intros H _. inversion H; subst. now rewrite str_eqb_refl.
+  - rewrite (rename_et_miss _ _ _ E). destruct (str_eqb (et_name u) b) eqn:E2; [discriminate|]. auto.
+Qed.
+
+(** *** frame: a statement changes only the tables it names (enforcement off) *)
+Definition touches (s : stmt) : list str :=
+  match s with
+  | SPragmaFK _ | SCreateIndex _ _ | SDropIndex _ => []
+  | SCreateTable t => [td_name t]
+  | SDropTable n => [n]
+  | SRenameTable a b => [a; b]
+  | SCopyRows to_t _ _ _ => [to_t]
+  | SAddColumn t _ => [t]
+  | SRenameColumn t _ _ => [t]
+  end.
+
+Lemma exec_flags d s d' :
+  is_pragma s = false -> exec d s = EOk d' -> d_fk d' = d_fk d /\ d_intx d' = d_intx d.
+Proof.
+  destruct s; cbn [is_pragma]; try discriminate; intros _ H; unfold RowsModel.exec in H.
+  - destruct (find_et _ _); [discriminate|]. inversion H; subst. auto.
+  - destruct (find_et n (d_tables d)); [|discriminate]. destruct (d_fk d) eqn:F.
+    + destruct (fk_actions _ _ _ _); [|discriminate]. inversion H; subst; simpl; auto.
+    + inversion H; subst; simpl; auto.
+  - destruct (find_et a _); [|discriminate]. destruct (find_et b _); [discriminate|]. inversion H; subst; auto.
+  - destruct (find_et to_t _); [|discriminate]. destruct (find_et from_t _); [|discriminate].
+    destruct (negb _); [discriminate|]. destruct (targets_ok _ _); [|discriminate].
+    destruct (RowsModel.copy_rows _ _ _ _ _ _ _); [|discriminate]. inversion H; subst; auto.
+  - destruct (find_et t _); [|discriminate]. destruct (find_rcol _ _); [discriminate|].
+    destruct (_ && _); [discriminate|]. inversion H; subst; auto.
+  - destruct (find_et t _); [|discriminate]. destruct (find_rcol a _); [|discriminate].
+    destruct (find_rcol b _); [discriminate|]. inversion H; subst; auto.
+  - inversion H; subst; auto.
+  - inversion H; subst; auto.
+Qed.
+
+Lemma map_rename_eq a b l :
+  map (fun t => if str_eqb (et_name t) a then mkEtable b (et_cols t) (et_fks t) (et_rows t) else t) l
+  = map (rename_et a b) l.
+Proof. reflexivity. Qed.
+
+Lemma exec_frame d s d' n :
+  d_fk d = false -> exec d s = EOk d' -> ~ In n (touches s) ->
+  find_et n (d_tables d') = find_et n (d_tables d).
+Proof.
+  intros F H Hn.
+  assert (forall m, In m (touches s) -> m <> n) as Hm by (intros m Hi X; subst; auto).
+  clear Hn.
+  destruct s; unfold RowsModel.exec in H; cbn [touches] in Hm.
+  - destruct (d_intx d); inversion H; subst; reflexivity.
+  - destruct (find_et (td_name t) (d_tables d)) eqn:E; [discriminate|]. inversion H; subst; simpl.
+    rewrite find_et_app. simpl. destruct (find_et n (d_tables d)); [reflexivity|].
+    destruct (str_eqb (td_name t) n) eqn:E1; [|reflexivity]. seq. exfalso. apply (Hm (td_name t)); simpl; auto.
+  - destruct (find_et n0 (d_tables d)); [|discriminate]. rewrite F in H. inversion H; subst; simpl.
+    apply find_et_remove_other. apply Hm; simpl; auto.
+  - destruct (find_et a (d_tables d)); [|discriminate]. destruct (find_et b (d_tables d)); [discriminate|].
+    inversion H; subst; simpl. rewrite map_rename_eq. apply find_et_rename_other; apply Hm; simpl; auto.
+  - destruct (find_et to_t (d_tables d)) as [new|] eqn:E; [|discriminate].
+    destruct (find_et from_t (d_tables d)); [|discriminate].
+    destruct (negb _); [discriminate|]. destruct (targets_ok _ _); [|discriminate].
+    destruct (RowsModel.copy_rows _ _ _ _ _ _ _); [|discriminate]. inversion H; subst; simpl.
+    apply find_et_replace_other. simpl. apply find_et_name in E. rewrite E. apply Hm; simpl; auto.
+  - destruct (find_et t (d_tables d)) as [u|] eqn:E; [|discriminate]. destruct (find_rcol _ _); [discriminate|].
+    destruct (_ && _); [discriminate|]. inversion H; subst; simpl.
+    apply find_et_replace_other. simpl. apply find_et_name in E. rewrite E. apply Hm; simpl; auto.
+  - destruct (find_et t (d_tables d)) as [u|] eqn:E; [|discriminate]. destruct (find_rcol a _); [|discriminate].
+    destruct (find_rcol b _); [discriminate|]. inversion H; subst; simpl.
+    apply find_et_replace_other. simpl. apply find_et_name in E. rewrite E. apply Hm; simpl; auto.
+  - inversion H; subst; reflexivity.
+  - inversion H; subst; reflexivity.
+Qed.
+
+(** a statement list without pragma, enforcement off at the start *)
+Lemma exec_all_frame l : forall d d' n,
+  d_fk d = false -> forallb (fun s => negb (is_pragma s)) l = true ->
+  exec_all d l = EOk d' -> (forall s, In s l -> ~ In n (touches s)) ->
+  find_et n (d_tables d') = find_et n (d_tables d) /\ d_fk d' = false /\ d_intx d' = d_intx d.
+Proof.
+  induction l as [|s l IH]; intros d d' n F NP H Hn; simpl in *.
+  - inversion H; subst; auto.
+  - apply andb_true_iff in NP. destruct NP as [NP1 NP2].
+    destruct (exec d s) as [d1|e] eqn:E; [|discriminate].
+    assert (is_pragma s = false) as NPs by (destruct (is_pragma s); [discriminate|reflexivity]).
+    destruct (exec_flags _ _ _ NPs E) as [F1 I1].
+    destruct (IH d1 d' n) as [A [B C]]; auto; try congruence.
+    rewrite A, C. split; [|split]; auto; try congruence.
+    eapply exec_frame; eauto.
+Qed.
+
+(** *** inversion of single statements *)
+Lemma exec_create d t d' :
+  exec d (SCreateTable t) = EOk d' ->
+  find_et (td_name t) (d_tables d) = None /\
+  d' = set_tables d (d_tables d ++ [mkEtable (td_name t) (td_cols t) (td_fks t) []]).
+Proof.
+  unfold RowsModel.exec. destruct (find_et _ _); [discriminate|]. intros H; inversion H; auto.
+Qed.
+
+Lemma exec_copy d to_t toC fromC from_t d' :
+  exec d (SCopyRows to_t toC fromC from_t) = EOk d' ->
+  exists new old rows,
+    find_et to_t (d_tables d) = Some new /\ find_et from_t (d_tables d) = Some old /\
+    copy_rows new old (et_rows old) toC fromC = EOk rows /\
+    d' = set_tables d (replace_et (set_rows new (et_rows new ++ rows)) (d_tables d)).
+Proof.
+  unfold RowsModel.exec. destruct (find_et to_t _) as [new|]; [|discriminate].
+  destruct (find_et from_t _) as [old|]; [|discriminate].
+  destruct (negb _); [discriminate|]. destruct (targets_ok _ _); [|discriminate].
+  destruct (RowsModel.copy_rows _ _ _ _ _ _ _) as [rows|] eqn:E; [|discriminate].
+  intros H; inversion H. exists new, old, rows. auto.
+Qed.
+
+Lemma exec_drop_off d n d' :
+  d_fk d = false -> exec d (SDropTable n) = EOk d' ->
+  exists t, find_et n (d_tables d) = Some t /\ d' = set_tables d (remove_et n (d_tables d)).
+Proof.
+  intros F. unfold RowsModel.exec. destruct (find_et n _) as [t|]; [|discriminate]. rewrite F.
+  intros H; inversion H. eauto.
+Qed.
+
+Lemma exec_rename d a b d' :
+  exec d (SRenameTable a b) = EOk d' ->
+  exists t, find_et a (d_tables d) = Some t /\ find_et b (d_tables d) = None /\
+            d' = set_tables d (map (rename_et a b) (d_tables d)).
+Proof.
+  unfold RowsModel.exec. destruct (find_et a _) as [t|]; [|discriminate].
+  destruct (find_et b _); [discriminate|]. intros H; inversion H. eauto.
+Qed.
+
+Lemma exec_all_indexes d t idx : exec_all d (addIndexes t idx) = EOk d.
+Proof. unfold addIndexes. induction idx; simpl; auto. Qed.
+
+(** *** the copy path of modifyTable *)
+Definition newT (t : tdef) : tdef := set_td_idx (set_td_name t (new_prefix ++ td_name t)) [].
+
+Definition copy_seg (t : tdef) (cp : list stmt) : list stmt :=
+  addTable (newT t) ++ cp
+  ++ [SDropTable (td_name t); SRenameTable (new_prefix ++ td_name t) (td_name t)]
+  ++ addIndexes (td_name t) (td_idx t).
+
+Lemma copy_seg_eq t cp :
+  copy_seg t cp = SCreateTable (newT t) :: (cp ++ [SDropTable (td_name t); SRenameTable (new_prefix ++ td_name t) (td_name t)] ++ addIndexes (td_name t) (td_idx t)).
+Proof. reflexivity. Qed.
+
+Definition new_tab (t : tdef) : etable := mkEtable (new_prefix ++ td_name t) (td_cols t) (td_fks t) [].
+
+Lemma copy_segment_effect d t cs cp d' told :
+  d_fk d = false ->
+  copyRows t (newT t) cs = POk cp ->
+  find_et (td_name t) (d_tables d) = Some told ->
+  exec_all d (copy_seg t cp) = EOk d' ->
+  exists rows',
+    find_et (td_name t) (d_tables d') = Some (mkEtable (td_name t) (td_cols t) (td_fks t) rows') /\
+    match pairs cs (td_cols t) with
+    | [] => rows' = []
+    | ps => copy_rows (new_tab t) told (et_rows told) (map fst ps) (map snd ps) = EOk rows'
+    end.
+Proof.
+  intros F CP FT H.
+  apply copyRows_spec in CP. cbn [newT set_td_idx set_td_name td_cols td_name] in CP.
+  rewrite copy_seg_eq in H. cbn [RowsModel.exec_all] in H.
+  destruct (exec d (SCreateTable _)) as [d1|] eqn:E1; [|discriminate].
+  apply exec_create in E1. cbn [newT td_name td_cols td_fks set_td_idx set_td_name] in E1.
+  destruct E1 as [N1 ->].
+  rewrite exec_all_app in H.
+  change (mkEtable (new_prefix ++ td_name t) (td_cols t) (td_fks t) []) with (new_tab t) in *.
+  pose proof (new_name_neq (td_name t)) as NEQ.
+  set (d1 := set_tables d (d_tables d ++ [new_tab t])) in *.
+  assert (find_et (new_prefix ++ td_name t) (d_tables d1) = Some (new_tab t)) as FN1.
+  { unfold d1; simpl. rewrite find_et_app, N1. simpl. now rewrite str_eqb_refl. }
+  assert (find_et (td_name t) (d_tables d1) = Some told) as FT1.
+  { unfold d1; simpl. now rewrite find_et_app, FT. }
+  assert (d_fk d1 = false) as F1 by exact F.
+  (* the copy statement *)
+  assert (exists rows' d2,
+            exec_all d1 cp = EOk d2 /\ d_fk d2 = false /\
+            find_et (new_prefix ++ td_name t) (d_tables d2)
+              = Some (mkEtable (new_prefix ++ td_name t) (td_cols t) (td_fks t) rows') /\
+            find_et (td_name t) (d_tables d2) = Some told /\
+            match pairs cs (td_cols t) with
+            | [] => rows' = []
+            | ps => copy_rows (new_tab t) told (et_rows told) (map fst ps) (map snd ps) = EOk rows'
+            end) as [rows' [d2 [E2 [F2 [FN2 [FT2 SPEC]]]]]].
+  { subst cp. destruct (pairs cs (td_cols t)) as [|p ps] eqn:PS.
+    - exists [], d1. simpl. auto.
+    - cbn [RowsModel.exec_all].
+      destruct (exec d1 (SCopyRows _ _ _ _)) as [d2|] eqn:E2.
+      2:{ cbn [RowsModel.exec_all] in H. rewrite E2 in H. discriminate. }
+      pose proof E2 as E2'. apply exec_copy in E2'.
+      destruct E2' as [new [old [rows [A [B [C D]]]]]].
+      rewrite FN1 in A. inversion A; subst new. rewrite FT1 in B. inversion B; subst old.
+      exists rows, d2. split; [reflexivity|]. subst d2. simpl. split; [exact F|]. split; [|split].
+      + change (new_prefix ++ td_name t) with (et_name (set_rows (new_tab t) rows)).
+        erewrite find_et_replace_same; [reflexivity|]. simpl. exact FN1.
+      + rewrite find_et_replace_other; [exact FT1|]. simpl. exact NEQ.
+      + exact C. }
+  rewrite E2 in H. cbn [app RowsModel.exec_all] in H.
+  destruct (exec d2 (SDropTable _)) as [d3|] eqn:E3; [|discriminate].
+  apply exec_drop_off in E3; [|exact F2]. destruct E3 as [t0 [_ ->]].
+  destruct (exec _ (SRenameTable _ _)) as [d4|] eqn:E4; [|discriminate].
+  apply exec_rename in E4. destruct E4 as [t1 [A [B ->]]]. simpl in A, B.
+  rewrite find_et_remove_other in A by (intro X; apply NEQ; now symmetry).
+  rewrite FN2 in A. inversion A; subst t1. clear A.
+  change (addIndexes (td_name t) (td_idx t)) with (addIndexes (td_name t) (td_idx t)) in H.
+  rewrite exec_all_indexes in H. inversion H; subst d'. clear H.
+  exists rows'. split; [|exact SPEC]. simpl.
+  assert (find_et (new_prefix ++ td_name t) (remove_et (td_name t) (d_tables d2))
+          = Some (mkEtable (new_prefix ++ td_name t) (td_cols t) (td_fks t) rows')) as FN3.
+  { rewrite find_et_remove_other by (intro X; apply NEQ; now symmetry). exact FN2. }
+  exact (find_et_rename _ _ _ _ FN3 B).
+Qed.
+
+(** *** values on the copy path *)
+Definition src_name (x : expr) : str := match x with ECol n | EIfNull n _ => n end.
+
+(** what the paired expression yields for the old value [v] *)
+Definition src_apply (x : expr) (v : value) : value :=
+  match x with
+  | ECol _ => v
+  | EIfNull _ d => if is_null v then d else v
+  end.
+
+Lemma eval_expr_same old r ty x cold v :
+  find_rcol (src_name x) (et_cols old) = Some cold -> rc_type cold = ty ->
+  get r (src_name x) = Some v ->
+  eval_expr old r ty x = EOk (src_apply x v).
+Proof.
+  intros FC TY G. destruct x as [n|n d]; simpl in *; unfold RowsModel.eval_expr; rewrite FC, G, TY.
+  - now rewrite conv_same.
+  - destruct (is_null v); [reflexivity|]. now rewrite conv_same.
+Qed.
+
+Lemma copy_row_value old r cs cols p c :
+  NoDup (map rc_name cols) ->
+  copy_row old r cols (map fst (pairs cs cols)) (map snd (pairs cs cols)) = EOk p ->
+  In c cols -> rc_gen c = false ->
+  exists v', get p (rc_name c) = Some v' /\
+             (rc_notnull c = true -> v' <> VNull) /\
+             match kept cs c with
+             | Some x => eval_expr old r (rc_type c) x = EOk v'
+             | None => v' = rc_defval c
+             end.
+Proof.
+  intros ND H Hc G. destruct (copy_row_spec _ _ _ _ _ _ H) as [NM SP].
+  destruct (SP c Hc G) as [v' [Hin [CV NN]]]. exists v'. split; [|split; [exact NN|]].
+  - apply get_in_nodup; [|exact Hin]. rewrite NM. now apply filter_names_nodup.
+  - rewrite col_value_pairs in CV by assumption. destruct (kept cs c); [exact CV|]. now inversion CV.
+Qed.
+
+(** rows of the rebuilt table, position by position *)
+Lemma copy_path_rows t cs told rows' p0 ps0 :
+  NoDup (map rc_name (td_cols t)) ->
+  pairs cs (td_cols t) = p0 :: ps0 ->
+  copy_rows (new_tab t) told (et_rows told) (map fst (p0 :: ps0)) (map snd (p0 :: ps0)) = EOk rows' ->
+  length rows' = length (et_rows told) /\
+  forall i r r', nth_error (et_rows told) i = Some r -> nth_error rows' i = Some r' ->
+    forall c, In c (td_cols t) -> rc_gen c = false ->
+      exists v', get r' (rc_name c) = Some v' /\
+                 (rc_notnull c = true -> v' <> VNull) /\
+                 match kept cs c with
+                 | Some x => eval_expr told r (rc_type c) x = EOk v'
+                 | None => v' = rc_defval c
+                 end.
+Proof.
+  intros ND PS H. rewrite <- PS in H.
+  destruct (copy_rows_spec _ _ _ _ _ _ H) as [L S]. split; [exact L|].
+  intros i r r' Hr Hr' c Hc G. destruct (S i r r' Hr Hr') as [p [CP ->]]. simpl in CP.
+  destruct (copy_row_value _ _ _ _ _ _ ND CP Hc G) as [v' [G' R]]. exists v'. split; [|exact R].
+  unfold with_generated. now apply get_app_some.
+Qed.
+
+(** *** the ALTER path *)
+Definition renamed_cols (cs : list tchange) : list str :=
+  flat_map (fun c => match c with RenameColumn a b => [a; b] | _ => [] end) cs.
+
+Definition rows_ext (excl : list str) (rows rows' : list row) : Prop :=
+  Forall2 (fun r r' => forall c v, ~ In c excl -> get r c = Some v -> get r' c = Some v) rows rows'.
+
+Lemma rows_ext_refl excl rows : rows_ext excl rows rows.
+Proof. induction rows; constructor; auto. Qed.
+
+Lemma rows_ext_trans e1 e2 a b c :
+  rows_ext e1 a b -> rows_ext e2 b c -> rows_ext (e1 ++ e2) a c.
+Proof.
+  intros H. revert c. induction H as [|r r' a b Hr H IH]; intros c H2; inversion H2; subst; constructor.
+  - intros k v Hk G. apply H3; [intro X; apply Hk; apply in_or_app; auto|].
+    apply Hr; [intro X; apply Hk; apply in_or_app; auto|exact G].
+  - apply IH; assumption.
+Qed.
+
+Lemma rows_ext_weaken e1 e2 a b : (forall c, In c e1 -> In c e2) -> rows_ext e1 a b -> rows_ext e2 a b.
+Proof.
+  intros W H. induction H as [|r r' a b Hr H IH]; constructor; [|exact IH].
+  intros k v Hk G. apply Hr; auto.
+Qed.
+
+Lemma get_rename_other (r : row) a b c v :
+  c <> a -> c <> b -> get r c = Some v ->
+  get (map (fun kv : str * value => (if str_eqb (fst kv) a then b else fst kv, snd kv)) r) c = Some v.
+Proof.
+  intros Ha Hb. induction r as [|[k w] r IH]; simpl; [discriminate|].
+  destruct (str_eqb k a) eqn:E.
+  - seq. subst k. destruct (str_eqb a c) eqn:E1; [seq; congruence|].
+    destruct (str_eqb b c) eqn:E2; [seq; congruence|]. exact IH.
+  - destruct (str_eqb k c); auto.
+Qed.
+
+Lemma alter_segment_effect n : forall cs l d d' told,
+  alterTable n cs = POk l ->
+  find_et n (d_tables d) = Some told ->
+  exec_all d l = EOk d' ->
+  exists tnew, find_et n (d_tables d') = Some tnew /\
+               rows_ext (renamed_cols cs) (et_rows told) (et_rows tnew).
+Proof.
+  induction cs as [|c cs IH]; intros l d d' told A FT H; simpl in A.
+  - inversion A; subst. simpl in H. inversion H; subst. exists told. split; [exact FT|apply rows_ext_refl].
+  - destruct c as [c0|m|m k|a b|i|i|a b|tg]; try discriminate;
+      destruct (alterTable n cs) as [l'|e] eqn:A'; try discriminate; inversion A; subst l; clear A.
+    + (* AddColumn *)
+      cbn [app RowsModel.exec_all] in H.
+      destruct (exec d (SAddColumn n c0)) as [d1|] eqn:E1; [|discriminate].
+      unfold RowsModel.exec in E1. rewrite FT in E1.
+      destruct (find_rcol (rc_name c0) (et_cols told)); [discriminate|].
+      destruct (_ && _); [discriminate|]. inversion E1; subst d1; clear E1.
+      set (t1 := mkEtable (et_name told) (et_cols told ++ [c0]) (et_fks told)
+                   (map (fun r => r ++ [(rc_name c0, if rc_gen c0 then genv n c0 r else rc_defval c0)]) (et_rows told))) in *.
+      assert (find_et n (d_tables (set_tables d (replace_et t1 (d_tables d)))) = Some t1) as F1.
+      { simpl. pose proof (find_et_name _ _ _ FT) as NM. rewrite <- NM.
+        change (et_name told) with (et_name t1). eapply find_et_replace_same. simpl. rewrite NM. exact FT. }
+      destruct (IH _ _ _ _ eq_refl F1 H) as [tnew [FN R]]. exists tnew. split; [exact FN|].
+      cbn [renamed_cols flat_map app]. fold (renamed_cols cs).
+      apply (rows_ext_trans [] _ _ (et_rows t1)); [|exact R].
+      simpl. clear. induction (et_rows told); constructor; auto.
+      intros k v _ G. now apply get_app_some.
+    + (* RenameColumn *)
+      cbn [app RowsModel.exec_all] in H.
+      destruct (exec d (SRenameColumn n a b)) as [d1|] eqn:E1; [|discriminate].
+      unfold RowsModel.exec in E1. rewrite FT in E1.
+      destruct (find_rcol a (et_cols told)); [|discriminate].
+      destruct (find_rcol b (et_cols told)); [discriminate|]. inversion E1; subst d1; clear E1.
+      match type of H with context [replace_et ?T _] => set (t1 := T) in * end.
+      assert (find_et n (d_tables (set_tables d (replace_et t1 (d_tables d)))) = Some t1) as F1.
+      { simpl. pose proof (find_et_name _ _ _ FT) as NM. rewrite <- NM.
+        change (et_name told) with (et_name t1). eapply find_et_replace_same. simpl. rewrite NM. exact FT. }
+      destruct (IH _ _ _ _ eq_refl F1 H) as [tnew [FN R]]. exists tnew. split; [exact FN|].
+      cbn [renamed_cols flat_map]. fold (renamed_cols cs).
+      apply (rows_ext_trans [a; b] _ _ (et_rows t1)); [|exact R].
+      simpl. clear. induction (et_rows told); constructor; auto.
+      intros k v Hk G. apply get_rename_other; auto; intro X; apply Hk; simpl; auto.
+    + (* AddIndex *)
+      cbn [app RowsModel.exec_all] in H. cbn [RowsModel.exec] in H.
+      destruct (IH _ _ _ _ eq_refl FT H) as [tnew [FN R]]. exists tnew. split; [exact FN|exact R].
+    + (* DropIndex *)
+      cbn [app RowsModel.exec_all] in H. cbn [RowsModel.exec] in H.
+      destruct (IH _ _ _ _ eq_refl FT H) as [tnew [FN R]]. exists tnew. split; [exact FN|exact R].
+    + (* RenameIndex *)
+      cbn [app RowsModel.exec_all] in H. cbn [RowsModel.exec] in H.
+      destruct (IH _ _ _ _ eq_refl FT H) as [tnew [FN R]]. exists tnew. split; [exact FN|exact R].
 Qed.
 
 End EngineProofs.
